@@ -5,6 +5,7 @@ package ice
 // goroutines included) and over GatherCandidates racing with Restart.
 
 import (
+	"runtime"
 	"sync"
 	"sync/atomic"
 )
@@ -12,10 +13,10 @@ import (
 func init() {
 	verifRegister("verifC11Notifier", verifC11Notifier)
 	verifRegister("verifC11GatherVsRestart", verifC11GatherVsRestart)
+	verifRegister("verifC11RestartDuringCycle", verifC11RestartDuringCycle)
 }
 
-// verifYield: a scheduling point inside harness callbacks (natively: Gosched).
-func verifYield() { verifYieldNative() }
+const verifC11MaxDelay = 8 // thorough: 12
 
 func verifC11Notifier() {
 	stream := verifChoice(3)
@@ -110,7 +111,15 @@ func verifC11GatherVsRestart() {
 	var gerr, rerr error
 	wg.Add(2)
 	go func() { defer wg.Done(); gerr = a.GatherCandidates() }()
-	go func() { defer wg.Done(); rerr = a.Restart("freshufrag", "freshpasswordfreshpasswd") }()
+	go func() {
+		defer wg.Done()
+		// Restart lands after 0..k fair hand-overs to the other goroutines, so
+		// it meets the cycle at its start, in the middle and at its very end
+		for n := verifChoice(verifC11MaxDelay + 4*verifTier() + 1); n > 0; n-- {
+			runtime.Gosched()
+		}
+		rerr = a.Restart("freshufrag", "freshpasswordfreshpasswd")
+	}()
 	wg.Wait()
 	// let the cycle (if it was started) wind down, then wait for the drainer
 	if done := a.gatherCandidateDone; done != nil {
@@ -136,6 +145,62 @@ func verifC11GatherVsRestart() {
 	if st == GatheringStateNew && nils.Load() == 0 {
 		verifReach("cancelled-by-restart")
 	}
+	a.loop.Close()
+	verifReach("done")
+}
+
+// Restart issued after GatherCandidates has returned, at any explored moment of
+// the running cycle (start, middle, the instant before it reports completion):
+// whatever the interleaving, once Restart has returned and the old cycle has
+// wound down the gathering state is New (a cancelled cycle cannot overwrite
+// it), the old cycle delivered its nil candidate at most once and only if it
+// had completed before Restart took effect, and a fresh cycle can be started.
+func verifC11RestartDuringCycle() {
+	w := verifNewWorld(true, false, 0, 0)
+	a := w.a
+	a.loop = verifLoop()
+	a.net = &verifNet{}
+	a.candidateTypes = []CandidateType{CandidateTypeHost}
+	a.gatheringState = GatheringStateNew
+	var nils, others atomic.Int32
+	verifAssert(a.OnCandidate(func(Candidate) {}) == nil, "handler")
+	a.candidateNotifier.candidateFunc = func(c Candidate) {
+		if c == nil {
+			nils.Add(1)
+		} else {
+			others.Add(1)
+		}
+	}
+	verifAssert(a.GatherCandidates() == nil, "first-gather-accepted")
+	done := a.gatherCandidateDone
+	for n := verifChoice(verifC11MaxDelay + 4*verifTier() + 1); n > 0; n-- {
+		runtime.Gosched()
+	}
+	nilsBefore := nils.Load() // delivered before Restart was even called: the cycle had completed
+	verifAssert(a.Restart("freshufrag", "freshpasswordfreshpasswd") == nil, "restart-ok")
+	if done != nil {
+		<-done // the superseded cycle has wound down
+	}
+	a.candidateNotifier.notifiers.Wait() // every event enqueued so far has been delivered
+	st, err := a.GetGatheringState()
+	verifAssert(err == nil, "no-error")
+	verifAssert(st == GatheringStateNew, "after-Restart-the-state-is-New(a-superseded-cycle-cannot-overwrite-it)")
+	verifAssert(nils.Load() <= 1 && others.Load() == 0, "at-most-one-nil-candidate-from-the-old-cycle")
+	if nilsBefore == 1 {
+		verifReach("completed-before-restart")
+	}
+	if nils.Load() == 0 {
+		verifReach("cancelled-by-restart")
+	}
+	// a fresh cycle runs to completion and reports exactly once more
+	n0 := nils.Load()
+	verifAssert(a.GatherCandidates() == nil, "fresh-cycle-accepted-after-Restart")
+	if d2 := a.gatherCandidateDone; d2 != nil {
+		<-d2
+	}
+	a.candidateNotifier.Close(true)
+	st, _ = a.GetGatheringState()
+	verifAssert(st == GatheringStateComplete && nils.Load() == n0+1, "fresh-cycle-completes-with-exactly-one-nil-candidate")
 	a.loop.Close()
 	verifReach("done")
 }
